@@ -1,6 +1,6 @@
 (* C03 - the ledger is a function of the main chain: the node's final ledger equals that of a fresh
    implementation node fed only the final main chain (both are observations of the Go code). *)
-From Virel Require Import Lib.Config Lib.U64 Lib.CheckLib Lib.AMap Model.Ledger Model.Node Check.Hist.
+From Virel Require Import Lib.Config Lib.U64 Lib.CheckLib Lib.AMap Model.Ledger Model.Node Check.Hist Spec.WellFormed.
 Open Scope N_scope.
 Open Scope bool_scope.
 
@@ -16,20 +16,30 @@ Definition dlgs_eqb_nounlock (d1 d2 : list dlg) : bool :=
 Definition last_dump (h : hist) : option dump :=
   fold_left (fun acc op => match op with HDeliver _ _ _ (Some d) => Some d | _ => acc end) (h_ops h) None.
 
+(* does the implementation hold a block whose ancestor list is not the list of its real predecessors?
+   (open known finding R13: the ancestor slots 1 and 2 are never checked) *)
+Definition anc_pf (cfg : config) (n0 n1 : node) (b : block) (now : N) (o : obs) : N :=
+  match get_block n0 (b_hash b), get_block n0 (prev_hash b) with
+  | None, Some p => if ob_acc o && negb (hashes_eqb (b_anc b) (real_ancestors p)) then 7 else 0
+  | _, _ => 0
+  end.
+
 (* codes: 1 fresh node refused a block of the main chain, 2 tip differs, 3 accounts differ, 4 staked total differs,
-   5 delegate records differ in more than unlock heights, 6 delegate records differ only in unlock heights *)
-Definition c03_hist (h : hist) : N :=
+   5 delegate records differ in more than unlock heights, 6 delegate records differ only in unlock heights,
+   8 = code 1 in a history in which the implementation accepted a block with a wrong ancestor list (R13) *)
+Definition c03_hist (cfg : config) (h : hist) : N :=
   match h_fresh h, last_dump h with
   | Some f, Some d =>
-      first_fail [
+      let c := first_fail [
         (1, h_fresh_ok h);
         (2, (dp_top f =? dp_top d) && (dp_top_h f =? dp_top_h d) && (dp_top_cd f =? dp_top_cd d));
         (3, accts_eqb (dp_accts f) (dp_accts d));
         (4, dp_staked f =? dp_staked d);
         (5, dlgs_eqb_nounlock (dp_dlgs f) (dp_dlgs d));
-        (6, dlgs_eqb (dp_dlgs f) (dp_dlgs d))]
+        (6, dlgs_eqb (dp_dlgs f) (dp_dlgs d))] in
+      if (c =? 1) && negb (hist_prop cfg h (anc_pf cfg) =? 0) then 8 else c
   | _, _ => 0
   end.
 
 Definition c03_bad_corr (cfg : config) (hs : list hist) := hist_corr_detail cfg hs.
-Definition c03_bad_prop (cfg : config) (hs : list hist) := bad_codes c03_hist hs 0.
+Definition c03_bad_prop (cfg : config) (hs : list hist) := bad_codes (c03_hist cfg) hs 0.
